@@ -268,9 +268,10 @@ def values_for(a, tier, text):
     if a.kind == "bit":
         return [True, False]
     if a.typ == "F":
-        one = [0.0, -1.5, 3.4028234663852886e38, 1e-45, 100.25]
+        one = [0.0, -1.5, 3.4028234663852886e38, 1e-45, 100.25, 32768.0, 65535.0, -0.0, 1.0, 16777217.0]
     elif a.typ == "L":
-        one = [0, 1, -1, 2147483647, -2147483648, 0x12345678]
+        # the boundaries of every narrower width too: a long is not two words to the codec
+        one = [0, 1, -1, 2147483647, -2147483648, 0x12345678, 127, 128, 255, 256, 32767, 32768, 40000, 65535, 65536, -128, -129, -32768, -32769, -65536, 0x7FFF8000]
     else:
         one = [0, 1, -1, 32767, -32768, 0x1234, -21931]
         if tier == "thorough" and text == "N7:1":
